@@ -27,6 +27,7 @@ type Sched struct {
 	aborted  bool
 	nSwitch  int
 	lastTask *Task
+	rootGid  uint64
 }
 
 type Task struct {
@@ -43,7 +44,7 @@ type Task struct {
 }
 
 func NewSched(r *Run) *Sched {
-	return &Sched{r: r, byGid: map[uint64]*Task{}, abort: make(chan struct{}), SwitchP: [2]int{1, 1}}
+	return &Sched{r: r, byGid: map[uint64]*Task{}, abort: make(chan struct{}), SwitchP: [2]int{1, 1}, rootGid: curGid()}
 }
 
 func curGid() uint64 {
@@ -90,6 +91,9 @@ func (s *Sched) Go(name string, fn func()) *Task {
 // The calling goroutine parks until the scheduler releases it again.
 func (s *Sched) Yield(site string, key ...int) {
 	gid := curGid()
+	if gid == s.rootGid {
+		return // the scheduler's own goroutine (oracle code calling the library) never parks
+	}
 	s.mu.Lock()
 	if s.aborted {
 		s.mu.Unlock()
@@ -195,7 +199,7 @@ func (s *Sched) Run(maxSteps int, tick func()) string {
 		t := runnable[k]
 		if t != s.lastTask && s.lastTask != nil {
 			s.nSwitch++
-			s.r.Faults["preempt"]++
+			s.r.Fault("preempt")
 		}
 		s.lastTask = t
 		s.r.Steps++
